@@ -215,8 +215,11 @@ func (g *VGen) fill(s *Schema, v reflect.Value) {
 				g.fill(f.T, v.Field(f.Index))
 			}
 		}
+	case KCustom:
+		v.Addr().Interface().(customFiller).FillRandom(g.Rng)
 	case KPtr:
-		if g.Rng.Chance(1, 12) {
+		// a nil pointer to a custom type makes Encode call a value-receiver method through nil
+		if s.Elem.K != KCustom && g.Rng.Chance(1, 12) {
 			return
 		}
 		g.fillNonNil(s, v)
